@@ -1,4 +1,4 @@
-HOOK_COMMITS = ['d56e60a']
+HOOK_COMMITS = ['d56e60a', '7a2a016', '5930dfb']
 LSM_TIE = ('Tie: every run rebuilds the harness against /repo with -tags verif and executes random single-client programs on the real DB over a recording storage; hook events give '
  'every installed version, flush, table compaction and trivial move, whose table files are read back from storage and sent to the compiled Lean model: each installed version must satisfy Version.wfB, '
  'each flush table must equal the frozen buffer, each compaction must satisfy CompactionOK (inputs closed under user-comparer overlap, outputs = a legal cut of build minSeq base (mergeAll inputs)), '
@@ -21,9 +21,9 @@ CLAIMS = {
   text=('21 theorems (Props/C09.lean) over Model/Locks.lean (write-lock token, compCommitLk, compaction command/ack rendezvous with their closeC/error alternatives, every public call as a control-flow graph with ok/fail storage outcomes): for every configuration '
         'whose three release flags are set (code_three_fixed is decided over facts read off the Go AST: Transaction.Commit unlocks compCommitLk on its error return, OpenTransaction returns the token on its error returns, DB.Write discards after a failed commit) '
         'and runs without SetReadOnly: released_on_return, progress (a step is enabled while a call is pending), recovers_after_faults (a measure decreases on every fault-free step), close_returns; explicit hanging runs for each flag unset (leak_commit, leak_opentx, '
-        'leak_largebatch: defects D5 D6 D7, found by this check and fixed) and for the remaining SetReadOnly/Close race (known_finding_setreadonly_close). Tie: the extracted facts; per run ~45 single-client scripts with one injected failure window on journal/manifest/table '
+        'leak_largebatch: defects D5 D6 D7, found by this check and fixed) and for the SetReadOnly/Close race (leak_setreadonly: defect D23, first derived from this model, then reproduced on the code and fixed); code_all_fixed decides that all four release facts now hold, so the theorems cover every reachable state of the configuration of the code. Tie: the extracted facts; per run ~45 single-client scripts with one injected failure window on journal/manifest/table '
         'create/write/sync/remove and ~25 races of 4-24 clients (Put, large Write, transactions, CompactRange, readers) against one Close; every call under a watchdog; after the faults stop put, transaction, large batch, CompactRange, Get and Close must return.'),
-  note=('Partial: liveness is termination under fairness in the model and "returned within the watchdog" on the implementation; timers/back-off are outside the model. Known finding (model level, not reproduced on the implementation): SetReadOnly racing Close can leave the write-lock token behind. '
+  note=('Partial: liveness is termination under fairness in the model and "returned within the watchdog" on the implementation; timers/back-off are outside the model. '
         'Known finding D8: a failed manifest write poisons the manifest journal writer and the commit retry loop then holds compCommitLk for good.')),
  'C11': dict(
   technique='Lean 4 theorems over the interleaving model (transaction steps) + crash images and commit faults around transactions on the real DB',
